@@ -252,8 +252,17 @@ def rule_R05_5(ctx):
                 continue
             n += 1
             # receiver derived from a guard (a shared cell) or from a local value under construction?
-            srcs = locks.backward_sources(f, c.args[0], set(gf.guards))
-            shared = any(x[0] == "guard" for x in srcs)
+            # shared iff the receiver is the deref of a MutexGuard (not a
+            # local copy made from one)
+            cp = f.canon_op(c.args[0])
+            shared = False
+            if cp and cp[0][0] == "call":
+                rc = f.call_at(cp[0][1])
+                if rc is not None and (rc.declared or "") in ("std::ops::DerefMut::deref_mut", "std::ops::Deref::deref") \
+                        and rc.argtys and "MutexGuard" in rc.argtys[0]:
+                    shared = True
+            elif cp and cp[0][0] == "local" and cp[0][1] in gf.guards:
+                shared = True
             r.inst("%s: %s on %s" % (f.path, name, "a shared cell" if shared else "a local value"))
             if shared:
                 r.fail("%s | resizes shared container via %s" % (f.path, name),
